@@ -443,6 +443,11 @@ Definition sidecar_digest (c : bytes) : option bytes :=
 Definition SIDE := b "inventory.json.".
 Definition INV := b "inventory.json".
 
+(** a name an inventory digest file can have at all: inventory.json.sha512 / inventory.json.sha256
+    (3.6 with 3.4 E025); used where no legal digestAlgorithm is known *)
+Definition sidecar_name (name : bytes) : bool :=
+  bytes_eqb name (SIDE ++ b "sha512") || bytes_eqb name (SIDE ++ b "sha256").
+
 (** the sidecar of an inventory file [invn] in directory [es]; [alg] = its digestAlgorithm if legal *)
 Definition sidecar_errors (es : list (bytes * node)) (invn : node) (alg : option bytes) : list ecode :=
   match alg with
@@ -464,7 +469,7 @@ Definition sidecar_errors (es : list (bytes * node)) (invn : node) (alg : option
       end
   | None =>
       (* no legal algorithm: some sidecar must at least exist *)
-      if existsb (fun e => starts_with SIDE (fst e)) es then [] else [58]
+      if existsb (fun e => sidecar_name (fst e)) es then [] else [58]
   end.
 
 (** ** content files *)
@@ -620,7 +625,7 @@ Definition version_dir (fx : bool) (rj : jv) (rinv : node) (rbytes : bytes) (all
                                                || (is_file (snd e) &&
                                                    match inv_alg rj with
                                                    | Some a => bytes_eqb (fst e) (SIDE ++ a)
-                                                   | None => starts_with SIDE (fst e)
+                                                   | None => sidecar_name (fst e)
                                                    end)) es
                          then [] else [15] in
             ((if bytes_eqb vb rbytes then [] else [64]) ++ side ++ stray, inv_type_version rj)
@@ -632,7 +637,7 @@ Definition version_dir (fx : bool) (rj : jv) (rinv : node) (rbytes : bytes) (all
                                                    || (is_file (snd e) &&
                                                        match inv_alg vj with
                                                        | Some a => bytes_eqb (fst e) (SIDE ++ a)
-                                                       | None => starts_with SIDE (fst e)
+                                                       | None => sidecar_name (fst e)
                                                        end)) es
                              then [] else [15] in
                 let own := match inv_type_version vj with
@@ -648,7 +653,7 @@ Definition version_dir (fx : bool) (rj : jv) (rinv : node) (rbytes : bytes) (all
       end
   | None =>
       (* W010: no inventory in the version directory; still no stray files *)
-      (if forallb (fun e => is_dir (snd e) || (is_file (snd e) && starts_with SIDE (fst e))) es then [] else [15], None)
+      (if forallb (fun e => is_dir (snd e) || (is_file (snd e) && sidecar_name (fst e))) es then [] else [15], None)
   end.
 
 Definition opt_list {A} (o : option A) : list A := match o with Some x => [x] | None => [] end.
@@ -679,7 +684,7 @@ Definition object_errors (fx : bool) (root : node) : list ecode :=
                       if starts_with (b "0=") name then (if is_file nd then [] else [1])
                       else if bytes_eqb name INV then []
                       else if starts_with SIDE name then
-                        (if is_file nd && match alg with Some a => bytes_eqb name (SIDE ++ a) | None => true end
+                        (if is_file nd && match alg with Some a => bytes_eqb name (SIDE ++ a) | None => sidecar_name name end
                          then [] else [1])
                       else if mem_b name vks then (if is_dir nd then [] else [1])
                       else if bytes_eqb name (b "logs") then (if is_dir nd then [] else [1])
